@@ -1298,9 +1298,12 @@ def kind_eval(run, b, jobs):
         any_id = cur[1] if cur[0] == "S" else (cur[1] if cur[0] == "O" and cur[1] is not None else (cur[1][0] if cur[0] == "V" and cur[1] else 0))
         if kind == "SINGLE":
             variants = [("none", None, ("O", None)), ("list-of-var", [some_var], ("V", [any_id])), ("array", np.zeros(2, np.float32), None),
-                        ("float", 1.5, None)]
+                        ("float", 1.5, None), ("empty-tuple", (), ("V", [])), ("empty-str", "", None), ("zero", 0, None)]
         elif kind == "OPTIONAL":
-            variants = [("list-of-var", [some_var], ("V", [any_id])), ("array", np.zeros(2, np.float32), None), ("float", 1.5, None)]
+            # (FALSY objects that are neither None nor a Var are no way of omitting an optional input either)
+            variants = [("list-of-var", [some_var], ("V", [any_id])), ("array", np.zeros(2, np.float32), None), ("float", 1.5, None),
+                        ("empty-tuple", (), ("V", [])), ("empty-list", [], ("V", [])), ("empty-str", "", None), ("zero", 0, None),
+                        ("false", False, None), ("empty-dict", {}, None)]
         else:
             variants = [("bare-var", some_var, ("S", any_id)), ("list-with-none", [some_var, None], None),
                         ("list-with-array", [some_var, np.zeros(2, np.float32)], None), ("not-iterable", 3, None)]
